@@ -1,5 +1,6 @@
 """C07 — every interrupt is served promptly whenever it arrives."""
 import copy
+import os
 import random
 
 import monitors
@@ -169,10 +170,30 @@ def master_diff(rng, n, drv, res):
                 break
 
 
+def _work(item):
+    """one injected-interrupt run (executed in a worker process)"""
+    import logging
+    import common
+    logging.disable(logging.CRITICAL)
+    scn, stims, n_ticks, key = item
+    s2 = dict(copy.deepcopy(scn), stims=stims, max_real=40_000_000_000, n_ticks=10)
+    res = Result()
+    drv = common.Driver()
+    run_ = run_scenario(s2, bus="sync", stop_when=stop_when_served(n_ticks, len(stims)))
+    raised = [e for e in run_["trace"].of("raise") if e.get("ok")]
+    ph = monitors.phase_of(run_["trace"], monitors.master_tid(run_), raised[0]) if raised else "not-raised"
+    SC.check_run(s2, run_, drv, res, monitors_on=("interrupts", "ticker"), corr=("ticker",), case_extra={"bus": "sync"})
+    return {"key": key, "phase": ph, "raised": bool(raised), "violations": res.violations, "divergences": res.divergences,
+            "validated": res.traces_validated, "scenario": s2 if ph == "mid-tick" else None,
+            "depth": S.depth_map(scn).get(stims[0]["comp"]) if len(stims) == 1 else None}
+
+
 def run(tier, seed, drv):
+    from concurrent.futures import ProcessPoolExecutor
     res = Result()
     rng = random.Random(seed)
     master_diff(random.Random(seed + 3), 150 if tier == "quick" else 2000, drv, res)
+    items = []
     for si, scn in enumerate(base_scenarios(rng, tier)):
         base = run_scenario(scn, bus="sync")
         tid = monitors.master_tid(base)
@@ -180,32 +201,34 @@ def run(tier, seed, drv):
         last = base["steps"]
         devs = [d["name"] for d in S.devices(scn)]
         stride = 1 if tier == "thorough" else (1 if last - first < 70 else 2)
-        max_real = 2_500_000_000 if si != 2 else 20_000_000_000
         for step in range(first, last + 1, stride):
             for d in devs:
-                s2 = dict(copy.deepcopy(scn), stims=[{"step": step, "comp": d}], max_real=40_000_000_000, n_ticks=10)
-                run_ = run_scenario(s2, bus="sync", stop_when=stop_when_served(scn["n_ticks"]))
-                raised = [e for e in run_["trace"].of("raise") if e.get("ok")]
-                ph = monitors.phase_of(run_["trace"], monitors.master_tid(run_), raised[0]) if raised else "not-raised"
-                res.case(f"{si}:{step}:{d}", nontrivial=bool(raised), sample={"scenario": s2} if len(res.samples) < 2 and ph == "mid-tick" else None)
-                res.count("phase=" + ph)
-                res.count("depth=" + str(S.depth_map(scn).get(d)))
-                SC.check_run(s2, run_, drv, res, monitors_on=("interrupts", "ticker"), corr=("ticker",), case_extra={"bus": "sync"})
+                items.append((scn, [{"step": step, "comp": d}], scn["n_ticks"], f"{si}:{step}:{d}"))
         # simultaneous interrupts and interrupt together with a due callback
         for k in range(6 if tier == "quick" else 40):
             stims = [{"step": rng.randrange(first, last + 1), "comp": rng.choice(devs)} for _ in range(rng.randrange(2, 4))]
             if rng.random() < 0.5:
                 stims[1]["step"] = stims[0]["step"]
-            s2 = dict(copy.deepcopy(scn), stims=stims, max_real=40_000_000_000, n_ticks=10)
-            run_ = run_scenario(s2, bus="sync", stop_when=stop_when_served(scn["n_ticks"], len(stims)))
-            res.case(f"{si}:multi:{k}", nontrivial=True)
-            res.count("multi-interrupt")
-            SC.check_run(s2, run_, drv, res, monitors_on=("interrupts", "ticker"), corr=("ticker",), case_extra={"bus": "sync"})
+            items.append((scn, stims, scn["n_ticks"], f"{si}:multi:{k}"))
+    with ProcessPoolExecutor(max_workers=min(14, os.cpu_count() or 4)) as ex:
+        outs = list(ex.map(_work, items, chunksize=8))
+    for o in outs:
+        multi = ":multi:" in o["key"]
+        res.case(o["key"], nontrivial=o["raised"] or multi, sample={"scenario": o["scenario"]} if o["scenario"] and len(res.samples) < 2 else None)
+        res.count("multi-interrupt" if multi else "phase=" + o["phase"])
+        if o["depth"] is not None:
+            res.count("depth=" + str(o["depth"]))
+        res.traces_validated += o["validated"]
+        for v in o["violations"]:
+            res.violate(v["record"], v["case"])
+        for d in o["divergences"]:
+            res.diverge(d["what"], d["case"])
     res.rule = ("4 base configurations (flat chain; system with fed, periodic and quiet inner devices; a far callback; depth 2) [+ generated nestings in the "
                 "thorough tier], per-update processing costs; ONE interrupt injected at every event-loop step from the master's first tick start to the "
                 "end of the baseline run, for every device at every depth (real asyncio schedule on the synchronous bus), plus sets of 2-3 interrupts "
-                "(some simultaneous); monitor: a later update of that device exists and all elapsed real time is processing cost; every Ticker trace "
-                "validated against the Lean ticker model. non-trivial = the interrupt was actually raised")
+                "(some simultaneous); monitor: a later update of that device exists within the property's bound; every Ticker trace validated against "
+                "the Lean ticker model; plus random action sequences on the real MasterScheduler bookkeeping against the Lean transition system. "
+                "non-trivial = the interrupt was actually raised")
     return res
 
 
